@@ -50,6 +50,14 @@ func (b *c04Builder) begin(typ byte, compressed bool, payload []byte) *c04Builde
 	return b
 }
 
+// beginBFinal starts a compressed message whose deflate stream ends with a
+// BFINAL=1 block followed by 0x00 (RFC 7692 7.2.3.4).
+func (b *c04Builder) beginBFinal(typ byte, payload []byte) *c04Builder {
+	b.typ, b.rsv1, b.first = typ, true, true
+	b.pending = (&deflate.Deflater{NoContextTakeover: true}).MessageBFinal(payload)
+	return b
+}
+
 // part sends the next n bytes (all that is left if n is larger) as a non-final fragment.
 func (b *c04Builder) part(n int) *c04Builder { return b.frag(n, false) }
 
@@ -120,6 +128,16 @@ var c04Specs = []c04Spec{
 		b.begin(frame.OpText, false, []byte(`true`)).rest()
 		b.begin(frame.OpText, false, []byte(`"`+string(c04Text(130, 1))+`"`)).rest()
 		b.begin(frame.OpText, false, []byte(`900`)).part(1).part(1).rest()
+	}},
+	{Name: "deflate-bfinal", Comp: "no-takeover", NetConn: frame.OpBinary, Build: func(b *c04Builder) {
+		// the final deflate block ends before the message does: the 0x00 travels in later fragments
+		p := append(c04Noise(30, 5), c04Text(90, 3)...)
+		b.beginBFinal(frame.OpBinary, p).rest()
+		n := len((&deflate.Deflater{NoContextTakeover: true}).MessageBFinal(p))
+		b.beginBFinal(frame.OpBinary, p).part(n - 1).rest()
+		b.beginBFinal(frame.OpBinary, p).part(n-1).ctl(frame.OpPing, []byte("p")).part(0).rest()
+		b.beginBFinal(frame.OpBinary, p).part(20).part(n - 21).rest()
+		b.begin(frame.OpBinary, false, []byte("after")).rest()
 	}},
 	{Name: "deflate-takeover", Comp: "takeover", Build: c04DeflateMixed},
 	{Name: "deflate-no-takeover", Comp: "no-takeover", Build: c04DeflateMixed},
@@ -579,7 +597,7 @@ func c04NumStreams(tier string) int {
 	if tier == "thorough" {
 		return len(c04Specs)
 	}
-	return 4
+	return 5
 }
 
 const c04QuickExtraMax = 240
